@@ -94,6 +94,58 @@ theorem C10_candidate_edge_not_in_reduced_dags (P : Program) (s : St) (e : Edge)
 /-- every node is visible in the view the reduced DAGs are computed from -/
 theorem C10_no_node_is_hidden (P : Program) (s : St) (u : Node) : (filteredView P s).okNode u = true := rfl
 
+/-- the head of a one-of does not wait for its own candidates, even when they are nodes of the current DAG because somebody
+else depends on them too (fix 07dff2b): every source its readiness looks at comes from a predecessor that is not one of
+its candidates -/
+theorem C10_head_readiness_ignores_candidates (P : Program) (s : St) (d : DagRef) (h : Node)
+    (hh : P.g.isOneofHead h = true) (hsw : P.g.isSwitch h = false) :
+    ∀ q ∈ predsFor P s d h, ∃ p, p ∈ P.g.preds h ∧ (P.g.attr h).oneofNodes.contains p = false ∧
+      d.nodes.contains p = true ∧
+      q = (if P.g.isSwitch p then (match s.sw p with | some (_, c) => c | none => p) else p) := by
+  intro q hq
+  unfold predsFor at hq
+  simp only [hsw, hh, Bool.false_and, Bool.false_eq_true, if_false, Bool.false_or, Bool.true_or, if_true, List.mem_map,
+    List.mem_filter, Bool.and_eq_true, Bool.not_eq_true', Bool.true_and] at hq
+  obtain ⟨p, ⟨hp1, hp2, hp3⟩, heq⟩ := hq
+  exact ⟨p, hp1, hp3, hp2, heq.symm⟩
+
+/-- a one-of sub-DAG that gives up because a node of it has failed passes that error on to its destination when the
+destination has no result (fix 3319e5b): a consumer outside the sub-DAG — of a switch whose case it is, of a recurrent
+subgraph — learns of the failure -/
+theorem C10_giving_up_passes_the_error_to_the_destination (c : Ctx) (d : DagRef) (below : List Frame) (s : St)
+    (obs : List Obs) (n : Node) (rest : List Node) (dn : Node) (hr : ready c.P s d n = true) (ho : d.isOneof = true)
+    (he : hasError s d = true) (hd : d.dest = some dn) (hx : s.exists dn = false) :
+    dagLaunch c d below s obs (n :: rest) =
+      retTo c (notify (notifyAll (notifyAll (s.setRes dn (.exc (subgraphError c.P s d))) ((c.P.g.desc1 dn).map Key.node))
+        ((c.P.g.desc1 n).map Key.node)) d.destKey) obs below .none := by
+  simp [dagLaunch, hr, ho, he, hd, hx]
+
+/-- … and the error is one that a node of the sub-DAG really has as its result -/
+theorem C10_the_passed_error_is_a_stored_one (P : Program) (s : St) (d : DagRef) (hres : ∀ n, s.resHid n = false)
+    (he : hasError s d = true) : ∃ n ∈ d.nodes, s.res n = some (.exc (subgraphError P s d)) := by
+  unfold hasError at he
+  rw [List.any_eq_true] at he
+  obtain ⟨x, hx, herr⟩ := he
+  unfold subgraphError
+  cases hf : (P.g.order ++ d.nodes).find? (fun n => d.nodes.contains n && s.isErr n) with
+  | none =>
+    rw [List.find?_eq_none] at hf
+    have := hf x (List.mem_append_right _ hx)
+    simp [hx, herr] at this
+  | some n =>
+    have hp := List.find?_some hf
+    simp only [Bool.and_eq_true, List.contains_iff_mem] at hp
+    obtain ⟨hn, hie⟩ := hp
+    refine ⟨n, hn, ?_⟩
+    simp only [St.isErr, St.get, hres, Bool.false_eq_true, if_false] at hie ⊢
+    cases hr : s.res n with
+    | none => rw [hr] at hie; simp [Val.isExc] at hie
+    | some w =>
+      rw [hr] at hie
+      simp only [Option.getD_some] at hie ⊢
+      cases w <;> simp [Val.isExc] at hie
+      rfl
+
 /-- opening is per run: the initial state of every run has nothing opened (fix: no write to the shared DAG) -/
 theorem C10_fresh_run_nothing_opened (u : Node) : init.opened u = false := rfl
 
